@@ -210,6 +210,7 @@ Definition spec_class (kind : Z) : Z :=
   | 35 => 6                   (* 15.4.4.16-22 step 4 -> TypeError *)
   | 36 => 6                   (* 8.12.9 Reject with Throw -> TypeError *)
   | 37 => 5                   (* 15.10.4.1 -> SyntaxError *)
+  | 38 => 3                   (* 15.4.5.1 steps 3.c-3.d (RangeError) come before step 3.g (length not writable) *)
   | 41 => 1 | 42 => 2 | 43 => 3 | 44 => 4 | 45 => 5 | 46 => 6 | 47 => 7   (* 15.11.2, 15.11.7.4 *)
   | 51 => 1 | 52 => 2 | 53 => 3 | 54 => 4 | 55 => 5 | 56 => 6 | 57 => 7   (* 15.11.1, 15.11.7.2 *)
   | _ => 0
@@ -219,7 +220,7 @@ Definition spec_class (kind : Z) : Z :=
 Definition spec_msg_nonempty (kind : Z) : bool := true.
 
 Definition known_kind (kind : Z) : bool :=
-  ((1 <=? kind) && (kind <=? 37)) || ((41 <=? kind) && (kind <=? 47)) || ((51 <=? kind) && (kind <=? 57)).
+  ((1 <=? kind) && (kind <=? 38)) || ((41 <=? kind) && (kind <=? 47)) || ((51 <=? kind) && (kind <=? 57)).
 
 (* ------------------------------------------------------------------ *)
 (* argument-dependent raises                                            *)
@@ -259,6 +260,7 @@ Definition spec_throws (fn : Z) (a : argval) : option bool :=
          end
   | 5 => Some (match a with AUndef => false | _ => negb (spec_is_uint32 a) end)      (* 15.4.2.2 *)
   | 6 => Some (negb (spec_is_uint32 a))                                              (* 15.4.5.1 step 3.c *)
+  | 7 => Some (negb (spec_is_uint32 a))      (* 15.4.5.1 steps 3.c-3.d before 3.g, whatever [[Writable]] of length is *)
   | _ => None
   end.
 
